@@ -1,5 +1,6 @@
 """C15: unknown properties are ignored at every protocol-object node."""
 import json
+import re
 
 from . import common, ctx
 from .gen import nontrivial, rng_for, signature, to_json
@@ -70,7 +71,7 @@ def inject(n, pick, rng, keys, counter, mm=None, declared=None):
         return n[2]
     if k == "obj":
         out = {p: inject(c, pick, rng, keys, counter, mm, declared) for p, c in n[2].items()}
-        if n[1] != "open":
+        if True:  # property-less structures (owner "open") are protocol objects too
             idx = counter[0]
             counter[0] += 1
             if pick(idx):
@@ -127,7 +128,7 @@ def shard(i, n, args):
     for root in ctx.select_roots(py, i, n):
         if root.cls is None:
             continue
-        for lab, tree, site, alt in all_cases(mm, root, seed, tier, n_random=(3 if tier == "quick" else 60), forced=(tier != "quick" or root.kind in ("RESP", "ALIAS"))):
+        for lab, tree, site, alt in all_cases(mm, root, seed, tier, n_random=(3 if tier == "quick" else 60), forced=True):
             j = to_json(tree)
             if not mm.valid(j, root.t):
                 continue
@@ -176,7 +177,7 @@ def shard(i, n, args):
                 except Exception as e:
                     from .pyside import exc_key
 
-                    fail("extra keys make structuring fail|%s|%s" % (root.kind if root.kind != "S" else "S", exc_key(e)[:90]), dict(wit, error=repr(e)))
+                    fail("extra keys make structuring fail|%s|%s" % (root.kind if root.kind != "S" else "S", re.sub(r"(Extra fields in constructor for \w+).*", r"\1", exc_key(e))[:90]), dict(wit, error=repr(e)))
                     continue
                 if o1 != o0:
                     fail("extra keys change the structured result|%s" % root.kind, dict(wit, base=repr(o0)[:300], got=repr(o1)[:300]))
